@@ -81,8 +81,18 @@ package parser
 //@   requires nonnil: p != nil
 //@   modifies p.buffer
 
+// CanIRead answers exactly whether the listed fields can be read one after the other:
+// endof(k) is the offset after the first k fields, or -1 once a field does not fit.
+//@ spec u32at(p, pos) = ite(p.bigEndian, be32(p.buffer[pos:]), le32r(p.buffer[pos:]))
+//@ spec fieldEnd(pos, ty, p) = ite(ty == ReadInt32 || ty == ReadBool, ite(len(p.buffer) - pos >= 4, pos + 4, -1), ite(ty == ReadInt64 || ty == ReadPointer, ite(len(p.buffer) - pos >= 8, pos + 8, -1), ite(ty == ReadBytes, ite(len(p.buffer) - pos >= 4 && len(p.buffer) - (pos + 4) >= u32at(p, pos), pos + 4 + u32at(p, pos), -1), pos)))
+//@ recspec endof(k, p, ts) = ite(k <= 0, 0, ite(endof(k-1, p, ts) < 0, -1, fieldEnd(endof(k-1, p, ts), ts[k-1], p)))
 //@ func (p *Parser) CanIRead(ReadTypes []ReadType) (ok bool)
 //@   requires nonnil: p != nil
 //@   pure
+//   (stated over the buffer as it was on entry: the function does not change it)
+//@   ensures sound:    ok ==> old(endof(len(ReadTypes), p, ReadTypes)) >= 0
+//@   ensures complete: !ok ==> exists(k, 1, len(ReadTypes) + 1, old(endof(k, p, ReadTypes)) < 0)
 //@   loop "for _, Type := range ReadTypes"
 //@     invariant bound: 0 <= BytesRead && BytesRead <= TotalSize && TotalSize == len(p.buffer)
+//@     invariant same:  sameslice(p.buffer, old(p.buffer)) && p.buffer == old(p.buffer) && p.bigEndian == old(p.bigEndian)
+//@     invariant at:    BytesRead == old(endof(idx__, p, ReadTypes))
